@@ -521,7 +521,12 @@ struct BigInt {
 
             case BigIntOperation::And: {
                 storage_[0U] &= number;
-                index_ = 0U;
+
+                while (index_ != 0U) {
+                    storage_[index_] = 0;
+                    --index_;
+                }
+
                 break;
             }
 
@@ -535,6 +540,7 @@ struct BigInt {
     template <BigIntOperation Operation, typename N_Number_T>
     inline void doOperation(N_Number_T number) noexcept {
         constexpr bool is_bigger_size = (((sizeof(N_Number_T) * 8U) / TypeWidth()) > 1U);
+        const SizeT32  old_index      = index_;
 
         switch (Operation) {
             case BigIntOperation::Add: {
@@ -608,6 +614,21 @@ struct BigInt {
 
                 number >>= TypeWidth();
                 ++index;
+            }
+
+            if (Operation == BigIntOperation::And) {
+                // The words above the operand are and-ed with zero.
+                while (index <= old_index) {
+                    storage_[index] = 0;
+                    ++index;
+                }
+            }
+        } else if (Operation == BigIntOperation::And) {
+            SizeT32 index = old_index;
+
+            while (index != 0U) {
+                storage_[index] = 0;
+                --index;
             }
         }
     }
